@@ -213,6 +213,27 @@ OPTIONS = [dict(show_nary=n, use_labels=u, show_element_attributes=e, show_relat
            for n in (True, False) for u in (False, True) for e in (True, False) for r in (True, False)
            for d in ("BT", "TB", "LR", "RL", "sideways")]
 
+LONG_TEXT_OPTIONS = [o for o in OPTIONS if o["show_nary"] and o["show_element_attributes"] and o["show_relation_attributes"]
+                     and o["direction"] == "BT"]
+
+
+def long_text_cases(tier):
+    """quantity: a run of n plain characters, then a character that is escaped in DOT (or two of them), then a tail;
+    n takes every value in a window below 4096 and below 8192 (limits a writer that folds or chunks long strings
+    would use; Graphviz itself gives up beyond 16 kB)"""
+    E = lambda c, l, attrs=(): ("el", c, "entity", l, attrs)
+    out = []
+    windows = [range(4060, 4100), range(8150, 8196)] if tier == "thorough" else [range(4084, 4098), range(8166, 8194)]
+    for w in windows:
+        for n in w:
+            for special in ('\\"', '"', "\\"):
+                t = "a" * n + special + "tail"
+                out.append(("long-text:identifier:%d:%r" % (n, special), (E("D", t, ()),)))
+                out.append(("long-text:label:%d:%r" % (n, special), (E("D", "e1", (("prov:label", t),)),)))
+                out.append(("long-text:value:%d:%r" % (n, special), (E("D", "e1", (("k", t),)),)))
+    return out
+
+
 KIND_OF = {PROV_URI + "Entity": "entity", PROV_URI + "Activity": "activity", PROV_URI + "Agent": "agent"}
 
 
@@ -283,7 +304,11 @@ class C15(spec.Spec):
         except Exception as e:
             out.filters["recipe-not-buildable:%s" % type(e).__name__] += 1
             return
-        self.judge_doc(doc, ("recipe", tag, repr(recipe)), out)
+        if tag.startswith("long-text:"):
+            # (texts of several kB: judged under the default options and with labels shown)
+            self.judge_doc(doc, ("recipe", tag, repr(recipe)), out, OPTIONS=LONG_TEXT_OPTIONS)
+        else:
+            self.judge_doc(doc, ("recipe", tag, repr(recipe)), out)
 
     def hist_case(self, hist, out):
         try:
@@ -292,7 +317,7 @@ class C15(spec.Spec):
             return
         self.judge_doc(doc, ("hist", self.hspec.ops(hist)), out)
 
-    def judge_doc(self, doc, hh, out):
+    def judge_doc(self, doc, hh, out, OPTIONS=OPTIONS):
         # expectation from the (reference-checked) unified document
         top, bundles = observe.dobs_ordered(doc)
         conflict = ref_unified(list(top))[1] or any(ref_unified(list(rs))[1] for _, rs in bundles)
@@ -655,7 +680,7 @@ def main(tier, seed):
     from .. import runner
     t0 = time.time()
     sp = make_spec(tier, {})
-    items = structures() + text_cases()
+    items = structures() + text_cases() + long_text_cases(tier)
     out = explore.pmap(__name__, tier, {}, "doc_case", items, chunk=3)
     out.evaluations -= len(items)
     nh = 0
